@@ -502,6 +502,7 @@ pub fn run(ctx: &mut Ctx) {
     ctx.floor("corpus.items", 10_000);
     ctx.floor("large.cases", 8);
     ctx.floor("utf8.names", 5_000);
+    ctx.floor("special-random.cases", 100);
     ctx.floor("defrag.ops", 50_000);
     ctx.floor("defrag.streams", 1);
     if !alloc::installed() {
@@ -565,6 +566,41 @@ pub fn run(ctx: &mut Ctx) {
             call(ctx, e, "utf8-names", &input, &aux, &mut s);
         }
         ctx.count("utf8.names");
+    });
+
+
+    // ------------------------------------------------ TLS 1.3-shaped hellos: randoms with a meaning of their own (HelloRetryRequest
+    // value, downgrade sentinels, all-zero) x every extension shape incl. degenerate contents, through every entry point + formatting
+    ctx.sweep("special-random-hellos", (gen::EXT_GENERATORS * 4) as u64, |ctx, idx| {
+        let k = (idx % gen::EXT_GENERATORS as u64) as usize;
+        let mut r = Rng::new(idx ^ 0x13_13);
+        let randoms: [Vec<u8>; 4] = [gen::HRR_RANDOM.to_vec(), { let mut v = r.bytes(32); v[24..].copy_from_slice(&[0x44, 0x4f, 0x57, 0x4e, 0x47, 0x52, 0x44, 1]); v }, vec![0; 32], vec![0xff; 32]];
+        let random = randoms[(idx / gen::EXT_GENERATORS as u64) as usize % 4].clone();
+        let mut s = String::new();
+        for rep in 0..12 {
+            // degenerate first (empty lists / absent optional parts), then generated contents
+            let e = if rep < 3 { gen::ext_variant(&mut Rng::new(rep), gen::Sz { opaque: 0, list: 0 }, k) } else { gen::ext_variant(&mut r, gen::TINY, k) };
+            let mut exts = e.to_bytes();
+            if rep % 2 == 1 {
+                exts.extend(gen::ext(&mut r, gen::TINY).to_bytes());
+            }
+            for ver in [0x0303u16, 0x0301] {
+                let sh = refenc::AHs::ServerHello(refenc::ASh { version: ver, random: random.clone(), sid: if rep % 3 == 0 { vec![] } else { r.bytes(32) }, cipher: 0x1301, comp: 0, ext: Some(exts.clone()) });
+                let ch = refenc::AHs::ClientHello(refenc::ACh { version: ver, random: random.clone(), sid: vec![], ciphers: vec![0x1301, 0x00ff], comp: vec![0], ext: Some(exts.clone()) });
+                for m in [sh, ch] {
+                    let msg = m.to_bytes();
+                    let rec = refenc::record(0x16, 0x0303, &msg);
+                    let body = m.body_bytes();
+                    for input in [&msg, &rec, &body] {
+                        for e in &reg {
+                            let aux = Aux { len: input.len(), flag: true, ty: 0x16, hlen: input.len().min(65535) as u16 };
+                            call(ctx, e, "special-random-hello", input, &aux, &mut s);
+                        }
+                    }
+                }
+            }
+        }
+        ctx.count("special-random.cases");
     });
 
     // ------------------------------------------------ every length 0..20 of three patterns, all entry points, all aux lens
